@@ -29,20 +29,17 @@ d9318e4 C02
 41899ef C11
 99ea34d C12
 6af1c86 C14
-f8b363f C14
 ffa0555 C15
 bea9096 C15
 f1f4efe C15
 20a2502 C18
 a4a3235 C18
 7409b1d C18
-3aa1f91 C18
 25f9667 C19
 06b0dfc C19
 4055d97 C19
 649779a C13
 459ad16 C13
-0808f79 C13
 1b8802c C05
 36d3401 C13
 f63dd05 C18
